@@ -1,3 +1,4 @@
+import Props.C20
 import Props.C20b
 #print axioms C20.default_enables_fastmath
 #print axioms C20.no_default_disables_fastmath
